@@ -271,6 +271,12 @@ def _receive_path(ctx, thorough):
             items.append(("faults", [("net", "accept"), ("open",), ("adv", 8), ("peerbytes", bytes(f0).hex()), ("turn", k), ("close",), ("adv", 24), ("open",), ("adv", 8),
                                      ("peerbytes", bytes(f0).hex()), ("adv", 8), ("heal",)]))
             meta.append(("check-bytes, second session", frames[0], bytes(f0)))
+        # ... and the same when the first session was closed while the console was unreachable (a retry was pending, or an attempt in flight)
+        for t in (1, 3, 15, 16, 17):
+            f0 = bytearray(frames[0]); f0[-1] ^= 0x01
+            items.append(("faults", [("net", "refuse"), ("open",), ("adv", t), ("close",), ("net", "accept"), ("adv", 24), ("open",), ("adv", 8),
+                                     ("peerbytes", bytes(f0).hex()), ("adv", 8), ("heal",)]))
+            meta.append(("check-bytes, second session after an unreachable first", frames[0], bytes(f0)))
         # after the damaged frame the console accepts the reconnection but drops it at once (it has not released the old session yet): the
         # first write on it - made by the application's connection callback, as the API objects do - fails; the client tries again
         for k in (0, 1):
